@@ -12,7 +12,7 @@ namespace Mosaik
 inductive IOSet where
   | fin (s : List Nat)      -- frozenset(s)
   | cofin (s : List Nat)    -- OutSet(s): everything except s
-deriving Repr, Inhabited
+deriving Repr, Inhabited, DecidableEq
 
 namespace IOSet
 
@@ -106,37 +106,47 @@ structure AttrClasses where
   trigIn : IOSet
   persOut : IOSet
   nonPersOut : IOSet
-deriving Repr, Inhabited
+deriving Repr, Inhabited, DecidableEq
 
 def wrap (l : Option (List Nat)) : Option IOSet := l.map IOSet.fin
 
-/-- `scenario.parse_attrs(model_desc, type)`; `none` = ValueError -/
-def parseAttrs (m : ModelDesc) (ty : SimType) : Option AttrClasses :=
+/-- the three arguments `parse_attrs` hands to `parse_set_triple` for the inputs
+(`inputs`, `measurement_inputs`, `event_inputs`), after the type's defaults -/
+def inputTriple (m : ModelDesc) (ty : SimType) : Option IOSet × Option IOSet × Option IOSet :=
   let inputs : Option IOSet := if m.anyInputs then some (IOSet.cofin []) else wrap m.attrs
   let empty : Option IOSet := some (IOSet.fin [])
-  let (defMeas, defEv) : Option IOSet × Option IOSet := match ty with
+  let defs : Option IOSet × Option IOSet := match ty with
     | .timeBased => (none, empty)
     | .eventBased => (empty, none)
     | .hybrid => (if m.trigger.isSome then none else inputs, none)
-  let measIn : Option IOSet := match m.nonTrigger with | some l => some (IOSet.fin l) | none => defMeas
-  let evIn : Option IOSet := match m.trigger with | some l => some (IOSet.fin l) | none => defEv
-  match parseSetTriple inputs measIn evIn with
+  (inputs,
+   match m.nonTrigger with | some l => some (IOSet.fin l) | none => defs.1,
+   match m.trigger with | some l => some (IOSet.fin l) | none => defs.2)
+
+/-- … and for the outputs (`outputs`, `measurement_outputs`, `event_outputs`) -/
+def outputTriple (m : ModelDesc) (ty : SimType) : Option IOSet × Option IOSet × Option IOSet :=
+  let empty : Option IOSet := some (IOSet.fin [])
+  (wrap m.attrs,
+   match m.persistent with | some l => some (IOSet.fin l) | none => (if ty == .eventBased then empty else none),
+   match m.nonPersistent with | some l => some (IOSet.fin l) | none => (if ty == .eventBased then none else empty))
+
+/-- the four `ValueError`s about kinds a simulator type forbids -/
+def typeOk (ty : SimType) (c : AttrClasses) : Bool :=
+  (ty != .timeBased || (IOSet.eq c.trigIn IOSet.empty && IOSet.eq c.nonPersOut IOSet.empty)) &&
+  (ty != .eventBased || (IOSet.eq c.nonTrigIn IOSet.empty && IOSet.eq c.persOut IOSet.empty))
+
+/-- `scenario.parse_attrs(model_desc, type)`; `none` = ValueError -/
+def parseAttrs (m : ModelDesc) (ty : SimType) : Option AttrClasses :=
+  let i := inputTriple m ty
+  match parseSetTriple i.1 i.2.1 i.2.2 with
   | none => none
   | some (mi, ei) =>
-    if ty == .timeBased && !(IOSet.eq ei IOSet.empty) then none
-    else if ty == .eventBased && !(IOSet.eq mi IOSet.empty) then none
-    else
-      let outputs := wrap m.attrs
-      let defMeasO : Option IOSet := if ty == .eventBased then empty else none
-      let measOut : Option IOSet := match m.persistent with | some l => some (IOSet.fin l) | none => defMeasO
-      let defEvO : Option IOSet := if ty == .eventBased then none else empty
-      let evOut : Option IOSet := match m.nonPersistent with | some l => some (IOSet.fin l) | none => defEvO
-      match parseSetTriple outputs measOut evOut with
-      | none => none
-      | some (mo, eo) =>
-        if ty == .timeBased && !(IOSet.eq eo IOSet.empty) then none
-        else if ty == .eventBased && !(IOSet.eq mo IOSet.empty) then none
-        else some { nonTrigIn := mi, trigIn := ei, persOut := mo, nonPersOut := eo }
+    let o := outputTriple m ty
+    match parseSetTriple o.1 o.2.1 o.2.2 with
+    | none => none
+    | some (mo, eo) =>
+      let c : AttrClasses := { nonTrigIn := mi, trigIn := ei, persOut := mo, nonPersOut := eo }
+      if typeOk ty c then some c else none
 
 namespace AttrClasses
 /-- `ModelMock.input_attrs` / `output_attrs` -/
